@@ -574,24 +574,6 @@ Proof.
 Qed.
 
 (* ------------------------------------------------------------------ locals fallback *)
-(* _contexts_active_by_trickery: locals_by_id[id(value)] = name for every local (later names
-   overwrite), then varname := locals_by_id.get(id(obj)) only where varname is None. *)
-Fixpoint last_bound (locals : list (string * nat)) (obj : nat) : option string :=
-  match locals with
-  | [] => None
-  | (n, v) :: r =>
-      match last_bound r obj with
-      | Some m => Some m
-      | None => if Nat.eqb v obj then Some n else None
-      end
-  end.
-
-Definition final_varname (described : dres) (locals : list (string * nat)) (obj : nat) : option string :=
-  match described with
-  | DSome s => Some s
-  | _ => last_bound locals obj
-  end.
-
 Lemma last_bound_bound : forall locals obj n, last_bound locals obj = Some n -> In (n, obj) locals.
 Proof.
   induction locals as [|[m v] r IH]; simpl; intros obj n H; [discriminate|].
@@ -618,4 +600,15 @@ Proof.
   - destruct (last_bound locals obj) eqn:L; [|reflexivity].
     right. split; [reflexivity | apply last_bound_bound; assumption].
   - destruct t as [t|]; simpl in E; [destruct (sup_target v t)|]; discriminate.
+Qed.
+
+(* the model's fallback choice is accepted by the property-level comparison used for kind "fb" *)
+Theorem final_varname_accepted : forall d locals obj, d <> DFuel ->
+  fcase_ok (d, locals, obj, final_varname d locals obj) = true.
+Proof.
+  intros d locals obj Hd. unfold fcase_ok, final_varname. destruct d as [s| |]; [| |contradiction].
+  - simpl. apply String.eqb_refl.
+  - destruct (last_bound locals obj) eqn:E; [|reflexivity].
+    apply last_bound_bound in E. apply existsb_exists. exists (s, obj). split; [assumption|].
+    simpl. rewrite String.eqb_refl, Nat.eqb_refl. reflexivity.
 Qed.
